@@ -8,9 +8,11 @@ with the two listers; the native `ID3` as a dict HashKey → frame) and is tied 
 object operation by operation, native frames included.  What is PROVED is the part of the view
 that follows mapping semantics and that has been reached so far: the 53 keys whose handler reads
 and writes one frame under a fixed HashKey (`eiPlain`: text, TXXX, genre, date, originaldate,
-musicbrainz_trackid), `website` (one WOAR frame per URL; read-back = first occurrences), plus
-every unregistered / non-`str` key (`KeyError`).  The guard `eiGoodKey` answers the keys of the
-other three entries "outside" (`PyErr.notImplemented`) in the guarded store `easyId3ImplG` and
+musicbrainz_trackid), `website` (one WOAR frame per URL; read-back = first occurrences),
+`performer:<role>` for every role that `str.lower()` leaves alone (all roles live in one TMCL
+frame: set replaces the role's entries, delete removes them and the frame when it is empty),
+plus every unregistered / non-`str` key (`KeyError`).  The guard `eiGoodKey` answers the
+remaining keys — `replaygain_*` and `performer:<Mixed Case>` — "outside" (`PyErr.notImplemented`) in the guarded store `easyId3ImplG` and
 in the policy alike; on operation sequences that mention good keys only, the guarded store, the
 plain model `easyId3Impl` and the real object with its residues `easyId3Run` produce the same
 outputs (`easyid3_run_congr`, `easyid3_real_run_congr`), so `easyid3_trace_equiv_partial` speaks
@@ -22,9 +24,8 @@ about the unguarded store.  The hypotheses, and why:
   (`easyid3_rejected_gain_residue_witness`), the description `*` is listed twice
   (`easyid3_keys_duplicate_witness`).  Excluding only gain/peak PAIRS with one description, as
   planned, is not enough: the lone `replaygain_x_gain` already makes `replaygain_x_peak` appear.
-* no `performer:*` key — the handler gets the role as typed (`easyid3_glob_case_witness`);
-  the refinement for lower-case roles is still NOT proved (all roles share TMCL, the key is a
-  glob instance): covered by the tie only.
+* `performer:<role>` only with a role that `str.lower()` leaves alone — the key is matched
+  lower-cased but the handler gets the role as typed (`easyid3_glob_case_witness`).
 * values: no hypothesis is needed for the refinement (what the setter refuses, the policy
   refuses with the same class; shapes outside the model's domain are "outside" on both sides);
   "only KeyError/TypeError/ValueError" fails for non-`str` items
@@ -93,28 +94,32 @@ theorem easyid3_keys_total (s : Id3) (hs : EasyId3Inv s) : easyId3KeysE s = .ok 
   easyId3KeysE_inv s hs
 
 /-- CONSISTENCY, set: a successful `view[k] = v` on a good key is either `native[HashKey] =
-frame` (single-frame entries; the frame is what the entry's setter makes of the value) or, for
-`website`, "all `WOAR:…` frames go, one `WOAR:<url>` frame per URL is added" -/
+frame` (single-frame entries; the frame is what the entry's setter makes of the value), or, for
+`website`, "all `WOAR:…` frames go, one `WOAR:<url>` frame per URL is added", or, for
+`performer:<role>`, a new TMCL frame under `TMCL` -/
 theorem easyid3_set_native (s s' : Id3) (k : PKey) (v : PVal) (h : easyId3ImplG.setitem s k v = .ok s') :
     ∃ e kt, eiEntryOf k = some (e, kt) ∧
       ((∃ hk f, hkOf e = some hk ∧ eiPlain e = true ∧ slotFrame e v = .ok f ∧ s' = insert hk f s) ∨
-       (e.kind = .website ∧ ∃ l, s' = woarPut l (delallPrefix pWOAR s))) :=
+       (e.kind = .website ∧ ∃ l, s' = woarPut l (delallPrefix pWOAR s)) ∨
+       (e = perfEntry ∧ ∃ f, s' = insert kTMCL f s)) :=
   easySetG_native s s' k v h
 
-/-- CONSISTENCY, delete: `del native[HashKey]`, resp. `native.delall("WOAR")` -/
+/-- CONSISTENCY, delete: `del native[HashKey]`, resp. `native.delall("WOAR")`, resp. TMCL
+rewritten without the role or deleted -/
 theorem easyid3_del_native (s s' : Id3) (k : PKey) (h : easyId3ImplG.delitem s k = .ok s') :
     ∃ e kt, eiEntryOf k = some (e, kt) ∧
       ((∃ hk, hkOf e = some hk ∧ eiPlain e = true ∧ s' = erase hk s) ∨
-       (e.kind = .website ∧ s' = delallPrefix pWOAR s)) :=
+       (e.kind = .website ∧ s' = delallPrefix pWOAR s) ∨
+       (e = perfEntry ∧ (s' = erase kTMCL s ∨ ∃ f, s' = insert kTMCL f s))) :=
   easyDelG_native s s' k h
 
 /-- CONSISTENCY, whole runs: whatever sequence of mapping operations runs on the guarded view,
-from any native state, a frame whose HashKey no single-frame entry owns and that is not a
-`WOAR:…` frame is untouched -/
+from any native state, a frame whose HashKey no single-frame entry owns and that is neither a
+`WOAR:…` frame nor `TMCL` is untouched -/
 theorem easyid3_foreign_frames_untouched (ops : List (Op PKey PVal)) (s : Id3) (a : Text)
-    (ha : a ∉ easyId3Owned) (hw : startsWith pWOAR a = false) :
+    (ha : a ∉ easyId3Owned) (hw : startsWith pWOAR a = false) (ht : a ≠ kTMCL) :
     lookup a (easyId3ImplG.exec ops s) = lookup a s :=
-  easyG_foreign_untouched ops s a ha hw
+  easyG_foreign_untouched ops s a ha hw ht
 
 /-! ### the deviations the hypotheses exclude (model = code; each checked by the tie) -/
 
@@ -177,6 +182,17 @@ example : easyId3Impl.run
     [.unit, .val (.list [(.prim (.str [104, 116, 116, 112, 58, 47, 47, 97])), (.prim (.str [104, 116, 116, 112, 58, 47, 47, 98]))]), .keys [(.str [119, 101, 98, 115, 105, 116, 101])], .unit, .bool false, .err .key] ∧
     easyId3Impl.exec [.set (.str [119, 101, 98, 115, 105, 116, 101]) (.list [(.prim (.str [104, 116, 116, 112, 58, 47, 47, 97])), (.prim (.str [104, 116, 116, 112, 58, 47, 47, 98])), (.prim (.str [104, 116, 116, 112, 58, 47, 47, 97]))])] [] =
       [([87, 79, 65, 82, 58, 104, 116, 116, 112, 58, 47, 47, 97], .woar [104, 116, 116, 112, 58, 47, 47, 97]), ([87, 79, 65, 82, 58, 104, 116, 116, 112, 58, 47, 47, 98], .woar [104, 116, 116, 112, 58, 47, 47, 98])] ∧ eiGoodKey (.str [119, 101, 98, 115, 105, 116, 101]) = true := by
+  decide +kernel
+
+/-- performer: two roles in one TMCL frame; the prefix may be typed in any case; replacing one
+role keeps the other; `[]` removes a role; deleting the last role removes the frame -/
+example : easyId3Impl.run
+    [.set (.str [112, 101, 114, 102, 111, 114, 109, 101, 114, 58, 103, 117, 105, 116, 97, 114]) (.list [(.prim (.str [97, 110, 110])), (.prim (.str [98, 111, 98]))]), .set (.str [80, 69, 82, 70, 79, 82, 77, 69, 82, 58, 118, 111, 99, 97, 108, 115]) (.item (.prim (.str [99, 121]))), .get (.str [112, 101, 114, 102, 111, 114, 109, 101, 114, 58, 103, 117, 105, 116, 97, 114]), .get (.str [112, 101, 114, 102, 111, 114, 109, 101, 114, 58, 118, 111, 99, 97, 108, 115]), .keys,
+     .set (.str [112, 101, 114, 102, 111, 114, 109, 101, 114, 58, 103, 117, 105, 116, 97, 114]) (.list []), .contains (.str [112, 101, 114, 102, 111, 114, 109, 101, 114, 58, 103, 117, 105, 116, 97, 114]), .del (.str [112, 101, 114, 102, 111, 114, 109, 101, 114, 58, 118, 111, 99, 97, 108, 115]), .del (.str [112, 101, 114, 102, 111, 114, 109, 101, 114, 58, 118, 111, 99, 97, 108, 115])] [] =
+    [.unit, .unit, .val (.list [(.prim (.str [97, 110, 110])), (.prim (.str [98, 111, 98]))]), .val (.list [(.prim (.str [99, 121]))]), .keys [(.str [112, 101, 114, 102, 111, 114, 109, 101, 114, 58, 103, 117, 105, 116, 97, 114]), (.str [112, 101, 114, 102, 111, 114, 109, 101, 114, 58, 118, 111, 99, 97, 108, 115])], .unit, .bool false, .unit,
+     .err .key] ∧
+    easyId3Impl.exec [.set (.str [112, 101, 114, 102, 111, 114, 109, 101, 114, 58, 103, 117, 105, 116, 97, 114]) (.list [(.prim (.str [97, 110, 110])), (.prim (.str [98, 111, 98]))]), .set (.str [80, 69, 82, 70, 79, 82, 77, 69, 82, 58, 118, 111, 99, 97, 108, 115]) (.item (.prim (.str [99, 121]))), .set (.str [112, 101, 114, 102, 111, 114, 109, 101, 114, 58, 103, 117, 105, 116, 97, 114]) (.list []), .del (.str [112, 101, 114, 102, 111, 114, 109, 101, 114, 58, 118, 111, 99, 97, 108, 115])] [] = [] ∧
+    eiGoodKey (.str [112, 101, 114, 102, 111, 114, 109, 101, 114, 58, 103, 117, 105, 116, 97, 114]) = true ∧ eiGoodKey (.str [80, 69, 82, 70, 79, 82, 77, 69, 82, 58, 118, 111, 99, 97, 108, 115]) = true ∧ eiGoodKey (.str [112, 101, 114, 102, 111, 114, 109, 101, 114, 58, 71, 117, 105, 116, 97, 114]) = false := by
   decide +kernel
 
 end Mutagen.C16
